@@ -286,6 +286,15 @@ def _crowded(ctx, part):
 
 
 def _adversarial(ctx):
+    # two [Song] sections whose lines CONCATENATE to the same text with different line boundaries, parsed one after
+    # the other in both orders (the second field's whole line, indentation included, is the tail of the first value)
+    for f, g in (("Name", "Artist"), ("Artist", "Name"), ("Genre", "Charter"), ("Album", "Year")):
+        gl = '%s = "y"' % g if g in STRING_FIELDS else "%s = 7" % g
+        two = ["Resolution = 192", '%s = "x"' % f, gl]
+        one = ["Resolution = 192", '%s = "x"  %s' % (f, gl)]
+        for seq in ((two, one), (one, two), (two, one, two)):
+            for song in seq:
+                check_song(ctx, song, "sections with the same concatenated text and other line boundaries, parsed one after the other")
     for f in STRING_FIELDS:
         others = [g for g in ALL_FIELDS if g != f]
         for g in others:
